@@ -75,6 +75,8 @@ var programs = []string{
 	"<%# comment %><%= raw(\"<b>\") %><% x = 5 %><%= x %>",
 	"<%= for (v) in range(1, 2) { %><%= v %>;<% } %>",
 	"<%= \"abc\" ~= \"b\" %>|<%= \"abc\" ~= \"^z\" %>",
+	"<%= pluralize(\"box\") %>|<%= camelize(\"a_b\") %>|<%= pathFor(\"/x\") %>",
+	"<%= toJSON(xs) %>|<%= debug(x) %>",
 }
 
 func fill(ctx *plush.Context, x, y int) {
